@@ -30,9 +30,29 @@ func TestMain(m *testing.M) {
 
 type fataler interface{ Fatalf(string, ...any) }
 
+// encodings handed out earlier must never change when other nodes are encoded later
+var remembered [][2][]byte
+
+func checkRemembered(t fataler) {
+	for _, r := range remembered {
+		if !bytes.Equal(r[0], r[1]) {
+			t.Fatalf("an encoding returned by an earlier Encode() call changed after later Encode() calls: was %x, now %x", r[1], r[0])
+		}
+	}
+}
+
+func remember(enc []byte) {
+	remembered = append(remembered, [2][]byte{enc, append([]byte(nil), enc...)})
+	if len(remembered) > 24 {
+		remembered = remembered[1:]
+	}
+}
+
 // checkNode: the round-trip and addressing obligations for one stored node.
 func checkNode(t fataler, where string, key []byte, n util.Node) (nontrivial bool, kind string) {
+	checkRemembered(t)
 	enc := n.Encode()
+	remember(enc)
 	if len(enc) == 0 {
 		t.Fatalf("%s: node under %x encodes to nothing", where, key)
 	}
